@@ -178,7 +178,7 @@ package cmd
 // over the part of the walk / of the index already visited. (How the three lists are printed is left to the stand-in.)
 //@ func statusCmd.RunE
 //@   requires clientWF() && cmd != nil
-//@   invariant-all clientWF()
+//@   invariant-all client != nil && client.Idx != nil && client.Ignore != nil && store.wfIndex(client.Idx) && store.wfIgnore(client.Ignore)
 //@   loop 0:
 //@     invariant [new-sound] {C13} forall k int :: 0 <= k && k < len(newFiles) ==> exists j int :: 0 <= j && j < it && newFiles[k] == filePaths[j] && !store.tracked(client.Idx, filePaths[j])
 //@     invariant [new-complete] {C13} forall j int :: 0 <= j && j < it && !store.tracked(client.Idx, filePaths[j]) ==> exists k int :: 0 <= k && k < len(newFiles) && newFiles[k] == filePaths[j]
